@@ -7,9 +7,10 @@
   arithmetic breaks these proofs. Helper lemmas: IQE/Lemmas/SplitEnum.lean, IQE/Lemmas/Fnv.lean.
 
   Known defect C11-F1 (deviation switch `Dev.dupNames`): with two files of the same NAME the code's result depends on the
-  caller's file order (`C11_duplicate_names_order_dependent`, kernel-checked witness). With the switch off the model
-  refuses duplicate names and `C11_canonical` holds with no hypothesis; for the code as it is, `C11_canonical_distinct_names`
-  needs pairwise distinct file names.
+  caller's file order (`C11_duplicate_names_order_dependent`, kernel-checked witness). For the code as it is,
+  `C11_canonical_distinct_names` needs pairwise distinct file names. With the switch off the model refuses duplicate names
+  (one possible repair; the corresponding patch was DECLINED by the maintainers' proxy because it removes working behaviour
+  for Iceberg-style layouts, so the finding stays open) and `C11_canonical` then holds with no hypothesis.
 -/
 import IQE.Lemmas.SplitEnum
 import IQE.Lemmas.Fnv
